@@ -44,6 +44,8 @@ struct Case {
     n_pages: usize,
     gap: u32,
     ins: Vec<Ins>,
+    /// deep families are written out as their generator parameters instead of the insertion list
+    desc: Option<Value>,
 }
 
 impl Case {
@@ -141,6 +143,9 @@ impl Case {
     }
 
     fn to_json(&self) -> Value {
+        if let Some(d) = &self.desc {
+            return d.clone();
+        }
         json!({
             "n_pages": self.n_pages,
             "max_id_gap": self.gap,
@@ -155,6 +160,9 @@ impl Case {
     }
 
     fn from_json(v: &Value) -> Option<Case> {
+        if let Some(f) = v["family"].as_str() {
+            return deep_case(f, v["depth"].as_u64()? as usize, v["zero"].as_str()?, v["order"].as_str()?, v["max_id_gap"].as_u64().unwrap_or(0) as u32);
+        }
         let mut ins = vec![];
         for i in v["insertions"].as_array()? {
             ins.push(Ins {
@@ -163,7 +171,7 @@ impl Case {
                 page: i["page"].as_u64()? as usize,
             });
         }
-        Some(Case { n_pages: v["n_pages"].as_u64()? as usize, gap: v["max_id_gap"].as_u64().unwrap_or(0) as u32, ins })
+        Some(Case { n_pages: v["n_pages"].as_u64()? as usize, gap: v["max_id_gap"].as_u64().unwrap_or(0) as u32, ins, desc: None })
     }
 }
 
@@ -252,7 +260,7 @@ fn make_case(parents: &[Option<usize>], order: &[usize], rot: usize, pages: &[us
         .iter()
         .map(|&node| Ins { parent: parents[node].map(pos), title: MENU[(rot + node) % MENU.len()].1.to_string(), page: pages[node] })
         .collect();
-    Case { n_pages, gap, ins }
+    Case { n_pages, gap, ins, desc: None }
 }
 
 /// The enumeration for forests with exactly n bookmarks.
@@ -261,7 +269,7 @@ fn cases_for(n: usize, counters: &mut (u64, u64)) -> Vec<Case> {
     if n == 0 {
         for p in 1..=3 {
             for gap in [0u32, 3] {
-                out.push(Case { n_pages: p, gap, ins: vec![] });
+                out.push(Case { n_pages: p, gap, ins: vec![], desc: None });
             }
         }
         counters.0 += 1;
@@ -286,6 +294,279 @@ fn cases_for(n: usize, counters: &mut (u64, u64)) -> Vec<Case> {
         }
     }
     out
+}
+
+// ---------------------------------------------------------------------------------------------
+// deep families ("any depth and fan-out")
+
+const DEEP_DEPTHS: [usize; 9] = [8, 32, 63, 64, 65, 66, 70, 128, 200];
+const DEEP_ZERO: [&str; 3] = ["none", "every_third_parent", "all_parents"];
+
+fn deep_title(i: usize) -> String {
+    // menu entry + unique suffix: distinct, and every kind of title occurs at every depth range
+    format!("{}#{}", MENU[i % MENU.len()].1, i)
+}
+
+/// family "chain": d bookmarks, each the only child of the previous one (d levels).
+/// family "chain_leaves": the same chain with one leaf sibling at every level; order "level" adds
+///   the two bookmarks of a level together (the leaf before the chain bookmark on odd levels, after
+///   it on even levels), order "chain_first" adds the whole chain and then the leaves top-down.
+/// family "under_third": three top-level bookmarks, a chain of d bookmarks under the last (d+1 levels).
+/// Pages: bookmark i (creation index) -> page (i mod 3) + 1 of 3 pages; `zero` turns bookmarks that
+/// have children into zero-page bookmarks (none / those with i mod 3 == 1 / all).
+fn deep_case(family: &str, d: usize, zero: &str, order: &str, gap: u32) -> Option<Case> {
+    if d == 0 || d > 100_000 || !DEEP_ZERO.contains(&zero) {
+        return None;
+    }
+    // (parent, is_inner) in insertion order
+    let mut nodes: Vec<(Option<usize>, bool)> = vec![];
+    match (family, order) {
+        ("chain", "level") => {
+            for l in 0..d {
+                nodes.push((if l == 0 { None } else { Some(l - 1) }, l + 1 < d));
+            }
+        }
+        ("chain_leaves", "level") => {
+            let mut chain_prev: Option<usize> = None;
+            for l in 0..d {
+                let inner = l + 1 < d;
+                if l % 2 == 1 {
+                    nodes.push((chain_prev, false));
+                    nodes.push((chain_prev, inner));
+                    chain_prev = Some(nodes.len() - 1);
+                } else {
+                    nodes.push((chain_prev, inner));
+                    nodes.push((chain_prev, false));
+                    chain_prev = Some(nodes.len() - 2);
+                }
+            }
+        }
+        ("chain_leaves", "chain_first") => {
+            for l in 0..d {
+                nodes.push((if l == 0 { None } else { Some(l - 1) }, l + 1 < d));
+            }
+            for l in 0..d {
+                nodes.push((if l == 0 { None } else { Some(l - 1) }, false));
+            }
+        }
+        ("under_third", "level") => {
+            nodes.push((None, false));
+            nodes.push((None, false));
+            nodes.push((None, true));
+            for l in 0..d {
+                nodes.push((Some(2 + l), l + 1 < d));
+            }
+        }
+        _ => return None,
+    }
+    let ins = nodes
+        .iter()
+        .enumerate()
+        .map(|(i, (parent, inner))| {
+            let z = *inner && match zero {
+                "all_parents" => true,
+                "every_third_parent" => i % 3 == 1,
+                _ => false,
+            };
+            Ins { parent: *parent, title: deep_title(i), page: if z { 0 } else { i % 3 + 1 } }
+        })
+        .collect();
+    let desc = json!({"family": family, "depth": d, "zero": zero, "order": order, "max_id_gap": gap, "n_pages": 3,
+        "meaning": "generated by deep_case() in c17.rs: titles = menu[i mod 10] + '#i', page = (i mod 3) + 1, i = insertion index"});
+    Some(Case { n_pages: 3, gap, ins, desc: Some(desc) })
+}
+
+fn deep_cases() -> Vec<Case> {
+    let mut out = vec![];
+    for (family, order) in [("chain", "level"), ("chain_leaves", "level"), ("chain_leaves", "chain_first"), ("under_third", "level")] {
+        for d in DEEP_DEPTHS {
+            for zero in DEEP_ZERO {
+                out.push(deep_case(family, d, zero, order, if d % 2 == 0 { 0 } else { 3 }).unwrap());
+            }
+        }
+    }
+    out
+}
+
+// ---------------------------------------------------------------------------------------------
+// depth probe: how deep a single chain may be before the recursive code runs out of stack.
+// Runs in a child process, on a thread with a stated stack size; the harness side is iterative.
+
+const PROBE_MAX_DEPTH: usize = 1 << 17;
+const STACK_FINDING: &str = "outline-recursion-stack-overflow";
+
+fn stage(s: &str) {
+    use std::io::Write;
+    println!("STAGE {}", s);
+    let _ = std::io::stdout().flush();
+}
+
+/// Run `f` on a fresh thread with `kib` KiB of stack.
+fn on_stack<T: Send + 'static>(kib: usize, f: impl FnOnce() -> T + Send + 'static) -> T {
+    match std::thread::Builder::new().stack_size(kib << 10).spawn(f).unwrap().join() {
+        Ok(v) => v,
+        Err(_) => {
+            println!("DEEP-FAIL panic");
+            std::process::exit(1)
+        }
+    }
+}
+
+const BIG_STACK_KIB: usize = 1 << 20;
+
+/// child side: `--part deep <depth> <zero: none|all_parents> <stack KiB> <which>`.
+/// Every stage runs on its own thread. `which` = "all": every stage gets `stack KiB`; otherwise
+/// only the named stage (adjust_zero_pages | build_outline | get_toc) does and the others get 1 GiB,
+/// which isolates the depth limit of that stage.
+fn deep_child(d: usize, zero: bool, stack_kib: usize, which: String) -> ! {
+    util::quiet_panics();
+    let kib = |st: &str| if which == "all" || which == st { stack_kib } else { BIG_STACK_KIB };
+    let (mut doc, cat, page_ids) = build_doc(3, 0);
+    stage("add_bookmark");
+    let mut prev: Option<u32> = None;
+    let mut titles = Vec::with_capacity(d);
+    for i in 0..d {
+        let inner = i + 1 < d;
+        let page = if zero && inner { (0, 0) } else { page_ids[i % 3] };
+        let t = deep_title(i);
+        prev = Some(doc.add_bookmark(Bookmark::new(t.clone(), [0.0, 0.0, 0.0], 0, page), prev));
+        titles.push(t);
+    }
+    stage("adjust_zero_pages");
+    let doc = on_stack(kib("adjust_zero_pages"), move || {
+        doc.adjust_zero_pages();
+        doc
+    });
+    stage("build_outline");
+    let (mut doc, root) = on_stack(kib("build_outline"), move || {
+        let mut doc = doc;
+        let r = doc.build_outline();
+        (doc, r)
+    });
+    let res: Result<(), String> = (|| {
+        let root = root.ok_or("build_outline returned None")?;
+        match doc.get_object_mut(cat) {
+            Ok(Object::Dictionary(c)) => c.set("Outlines", Object::Reference(root)),
+            _ => return Err("catalog missing".to_string()),
+        }
+        stage("get_toc");
+        let toc = on_stack(kib("get_toc"), move || doc.get_toc().map_err(|e| format!("get_toc: {}", e)))?;
+        stage("compare");
+        if toc.toc.len() != d {
+            return Err(format!("get_toc returned {} entries for a chain of {} bookmarks", toc.toc.len(), d));
+        }
+        for (i, e) in toc.toc.iter().enumerate() {
+            let page = if zero { (d - 1) % 3 + 1 } else { i % 3 + 1 };
+            if e.title != titles[i] || e.level != i + 1 || e.page != page {
+                return Err(format!("get_toc entry {} is ({:?}, {}, {}), expected ({:?}, {}, {})", i, e.title, e.level, e.page, titles[i], i + 1, page));
+            }
+        }
+        stage("done");
+        Ok(())
+    })();
+    match res {
+        Ok(()) => {
+            println!("DEEP-OK");
+            std::process::exit(0)
+        }
+        Err(m) => {
+            println!("DEEP-FAIL {}", m);
+            std::process::exit(1)
+        }
+    }
+}
+
+#[derive(Debug, Clone, PartialEq)]
+enum Probe {
+    Ok,
+    /// the property fails without a crash (wrong table of contents, error, panic)
+    Fail(String),
+    /// the process died by a signal; (signal, last stage reached, stack overflow message seen)
+    Crash(i32, String, bool),
+}
+
+fn probe_once(d: usize, zero: bool, stack_kib: usize, which: &str) -> Probe {
+    use std::os::unix::process::ExitStatusExt;
+    let exe = std::env::current_exe().unwrap();
+    let out = std::process::Command::new(exe)
+        .args(["--part", "deep", &d.to_string(), if zero { "all_parents" } else { "none" }, &stack_kib.to_string(), which])
+        .output()
+        .unwrap_or_else(|e| {
+            eprintln!("MACHINERY: cannot start the probe child: {}", e);
+            std::process::exit(3);
+        });
+    let so = String::from_utf8_lossy(&out.stdout).to_string();
+    let se = String::from_utf8_lossy(&out.stderr).to_string();
+    let last_stage = so.lines().filter_map(|l| l.strip_prefix("STAGE ")).last().unwrap_or("").to_string();
+    if let Some(sig) = out.status.signal() {
+        return Probe::Crash(sig, last_stage, se.contains("overflowed its stack"));
+    }
+    if out.status.code() == Some(0) && so.contains("DEEP-OK") {
+        return Probe::Ok;
+    }
+    let msg = so.lines().find_map(|l| l.strip_prefix("DEEP-FAIL ")).unwrap_or("child ended without a verdict").to_string();
+    Probe::Fail(format!("{} (stage {}, exit {:?})", msg, last_stage, out.status.code()))
+}
+
+fn probe_case_json(d: usize, zero: bool, stack_kib: usize, which: &str) -> Value {
+    json!({"probe": true, "family": "chain", "depth": d, "zero": if zero { "all_parents" } else { "none" }, "order": "level", "stack_kib": stack_kib, "limited_stage": which,
+        "meaning": "single chain of `depth` bookmarks: add_bookmark x depth, adjust_zero_pages, build_outline, get_toc in a child process; every stage on its own thread; the stage named by limited_stage (all = every stage) has `stack_kib` KiB of stack, the others 1 GiB"})
+}
+
+/// Doubling then bisection for one configuration. Returns (largest depth seen passing, first failing depth and outcome).
+fn probe_config(run: &Run, zero: bool, stack_kib: usize, which: &str) -> Value {
+    let mut ok = 200usize;
+    let mut bad: Option<(usize, Probe)> = None;
+    let mut children = 0u64;
+    let base = probe_once(ok, zero, stack_kib, which);
+    children += 1;
+    if base != Probe::Ok {
+        run.fail(None, probe_case_json(ok, zero, stack_kib, which), &format!("{:?}", base), "a chain of 200 bookmarks reads back");
+        return json!({"zero_page_parents": zero, "stack_kib": stack_kib, "limited_stage": which, "largest_depth_ok": 0});
+    }
+    let mut d = 256usize;
+    while d <= PROBE_MAX_DEPTH {
+        children += 1;
+        match probe_once(d, zero, stack_kib, which) {
+            Probe::Ok => ok = d,
+            p => {
+                bad = Some((d, p));
+                break;
+            }
+        }
+        d *= 2;
+    }
+    if let Some((mut hi, mut p)) = bad.clone() {
+        while hi - ok > 1 {
+            let mid = ok + (hi - ok) / 2;
+            children += 1;
+            match probe_once(mid, zero, stack_kib, which) {
+                Probe::Ok => ok = mid,
+                q => {
+                    hi = mid;
+                    p = q;
+                }
+            }
+        }
+        bad = Some((hi, p));
+    }
+    run.add("probe_child_processes", children);
+    run.eval(children);
+    match &bad {
+        None => json!({"zero_page_parents": zero, "stack_kib": stack_kib, "limited_stage": which, "largest_depth_ok": ok, "first_failing_depth": Value::Null, "probed_up_to": PROBE_MAX_DEPTH}),
+        Some((hi, p)) => {
+            // classification: a catalogued stack overflow only if the child died by a signal with the
+            // runtime's stack-overflow message, and the same configuration passes at depth 200 (checked above)
+            let (fid, observed) = match p {
+                Probe::Crash(sig, st, true) => (Some(STACK_FINDING), format!("child process died with signal {} (\"has overflowed its stack\") during stage {}; depth {} passes", sig, st, ok)),
+                Probe::Crash(sig, st, false) => (None, format!("child process died with signal {} during stage {}", sig, st)),
+                Probe::Fail(m) => (None, m.clone()),
+                Probe::Ok => unreachable!(),
+            };
+            run.fail(fid, probe_case_json(*hi, zero, stack_kib, which), &observed, "a chain of any depth is turned into an outline and read back");
+            json!({"zero_page_parents": zero, "stack_kib": stack_kib, "limited_stage": which, "largest_depth_ok": ok, "first_failing_depth": hi, "outcome": observed})
+        }
+    }
 }
 
 // ---------------------------------------------------------------------------------------------
@@ -391,7 +672,8 @@ impl Ctx<'_> {
         let mut cur = first.ok_or(format!("{} has {} children but no /First", who, kids.len()))?;
         let mut prev: Option<ObjectId> = None;
         for (pos, &k) in kids.iter().enumerate() {
-            let me = format!("{} > child {} (insertion {}, {:?})", who, pos, k, self.case.ins[k].title);
+            let short = if who.len() > 240 { format!("[level {}] ...{}", who.matches(" > ").count() + 1, &who[who.char_indices().rev().nth(160).map(|x| x.0).unwrap_or(0)..]) } else { who.to_string() };
+            let me = format!("{} > child {} (insertion {}, {:?})", short, pos, k, self.case.ins[k].title);
             if !self.created.contains(&cur) {
                 return Err(format!("{}: linked object {:?} was not created by build_outline", me, cur));
             }
@@ -485,14 +767,15 @@ fn cmp_toc(expected: &TocModel, got: &TocModel, what: &str) -> Result<(), String
         return Ok(());
     }
     let i = (0..expected.len().max(got.len())).find(|i| expected.get(*i) != got.get(*i)).unwrap();
+    let listing = if got.len() <= 8 { format!(" {:?}", got) } else { String::new() };
     Err(format!(
-        "get_toc {}: entry {} is {:?}, expected {:?} (title, level, page); got {} entries {:?}, expected {} entries",
+        "get_toc {}: entry {} is {:?}, expected {:?} (title, level, page); got {} entries{}, expected {} entries",
         what,
         i,
         got.get(i),
         expected.get(i),
         got.len(),
-        got,
+        listing,
         expected.len()
     ))
 }
@@ -601,12 +884,41 @@ fn check_case(case: &Case) -> (Result<(), String>, bool) {
 const EXPECTED: &str = "fresh ids above max_id; First/Last/Next/Prev/Parent consistent with the forest in insertion order; Title decodes to the title; destination = target page; get_toc == preorder (title, depth+1, page number) on the built document and after save+load in both formats; same document on a second execution";
 
 fn main() {
+    let args: Vec<String> = std::env::args().collect();
+    if let Some(i) = args.windows(2).position(|w| w[0] == "--part" && w[1] == "deep") {
+        let num = |k: usize| args.get(i + k).and_then(|s| s.parse::<usize>().ok());
+        match (num(2), args.get(i + 3).map(|s| s.as_str()), num(4)) {
+            (Some(d), Some(z), Some(kib)) if d >= 1 && d <= PROBE_MAX_DEPTH => deep_child(d, z == "all_parents", kib, args.get(i + 5).cloned().unwrap_or("all".into())),
+            _ => {
+                eprintln!("MACHINERY: bad --part deep arguments");
+                std::process::exit(3);
+            }
+        }
+    }
     let run = Run::from_args("C17", "exploration");
     util::quiet_panics();
     util::init_pool();
     util::pin_schedule();
     if let Mode::Replay(path) = run.mode.clone() {
         let c = vharness::run::read_replay(&path);
+        if c["probe"].as_bool() == Some(true) {
+            let d = c["depth"].as_u64().unwrap_or(0) as usize;
+            let zero = c["zero"].as_str() == Some("all_parents");
+            let kib = c["stack_kib"].as_u64().unwrap_or(8192) as usize;
+            if d == 0 || d > PROBE_MAX_DEPTH {
+                eprintln!("MACHINERY: probe depth outside 1..{}", PROBE_MAX_DEPTH);
+                std::process::exit(3);
+            }
+            let which = c["limited_stage"].as_str().unwrap_or("all").to_string();
+            let a = probe_once(d, zero, kib, &which);
+            let b = probe_once(d, zero, kib, &which);
+            if a != b {
+                eprintln!("MACHINERY: replay not deterministic: {:?} vs {:?}", a, b);
+                std::process::exit(3);
+            }
+            println!("observed: {:?}", a);
+            run.finish_replay(a != Probe::Ok);
+        }
         let Some(case) = Case::from_json(&c) else {
             eprintln!("MACHINERY: replay case does not parse");
             std::process::exit(3);
@@ -630,7 +942,7 @@ fn main() {
         match fails.first() {
             Some(m) if fails.len() == results.len() => println!("observed: {}", m),
             Some(m) => println!("observed: verdict varies between executions of the same case ({} of {} fail), first failure: {}", fails.len(), results.len(), m),
-            None => println!("observed: well-formed outline, table of contents reads back ({} bookmarks, shape {})", case.ins.len(), case.shape()),
+            None => println!("observed: well-formed outline, table of contents reads back ({} bookmarks, shape {})", case.ins.len(), vharness::run::truncate(&case.shape(), 80)),
         }
         run.finish_replay(!fails.is_empty());
     }
@@ -641,8 +953,15 @@ fn main() {
          children: page 1..P or the zero page (0,0)) x title rotation r in 0..{m} (the bookmark with preorder index i gets menu entry (r+i) mod {m}; menu = \
          {names:?}) x max_id gap in {{0,3}} (max_id = largest object number + gap before build_outline). Pages tree: /Kids lists the P pages in reverse order of \
          their object numbers. adjust_zero_pages() is called in every case. A case is non-trivial when its forest has >= 2 bookmarks; cases are distinct by \
-         construction (distinct descriptor tuples). Quick additionally runs the n = 4 cases whose index = VERIF_SEED mod 97 (mod 97).",
+         construction (distinct descriptor tuples). Both tiers add {deep} deep-family cases (same oracle): families {{single chain of d levels; the same chain with a \
+         leaf sibling at every level, in two insertion orders (level by level with the leaf before the chain bookmark on odd levels, or whole chain first then the \
+         leaves); three top-level bookmarks with a chain of d under the last}} x d in {depths:?} x zero-page parents {{none, every third, all}}, titles = menu \
+         entry (i mod {m}) + '#i', page (i mod 3)+1 of 3, max_id gap 0 for even d and 3 for odd d. Supplementary depth probe (not part of the enumeration): single \
+         chains in child processes, doubling from 256 to {pmax} then bisection, to find where recursion exhausts an 8 MiB / 2 MiB stack. Quick additionally runs the n = 4 cases whose index = VERIF_SEED mod 97 (mod 97).",
         nmax = nmax,
+        deep = deep_cases().len(),
+        depths = DEEP_DEPTHS,
+        pmax = PROBE_MAX_DEPTH,
         m = MENU.len(),
         names = MENU.iter().map(|m| m.0).collect::<Vec<_>>()
     ));
@@ -659,6 +978,10 @@ fn main() {
         by_n.push(c.len());
         cases.extend(c);
     }
+    let deep = deep_cases();
+    run.set("deep_family_cases", json!(deep.len()));
+    run.set("deep_depths", json!(DEEP_DEPTHS));
+    cases.extend(deep);
     let bound_cases = cases.len();
     if !run.thorough {
         let r = (run.seed % 97) as usize;
@@ -710,15 +1033,35 @@ fn main() {
     // samples: first non-empty, one per size, the largest/last
     let mut shown = BTreeMap::new();
     for c in cases[..bound_cases].iter() {
-        if !c.ins.is_empty() && !shown.contains_key(&c.ins.len()) {
+        if c.desc.is_none() && !c.ins.is_empty() && !shown.contains_key(&c.ins.len()) {
             shown.insert(c.ins.len(), ());
             run.sample(c.to_json());
         }
     }
-    if let Some(c) = cases[..bound_cases].iter().rev().find(|c| c.ins.iter().any(|i| i.page == 0) && c.preorder().iter().any(|x| x.1 >= 2)) {
+    if let Some(c) = cases[..bound_cases].iter().rev().find(|c| c.desc.is_none() && c.ins.iter().any(|i| i.page == 0) && c.preorder().iter().any(|x| x.1 >= 2)) {
+        run.sample(c.to_json());
+    }
+    if let Some(c) = cases[..bound_cases].iter().find(|c| c.desc.as_ref().map(|d| d["family"] == "chain_leaves" && d["depth"] == 66).unwrap_or(false)) {
         run.sample(c.to_json());
     }
     run.sample(cases[bound_cases - 1].to_json());
+    // depth probe (supplementary to the enumeration above): where does recursion run out of stack?
+    let mut probes = vec![];
+    for (zero, kib, which) in [
+        (false, 8192usize, "all"),
+        (true, 8192, "all"),
+        (false, 2048, "all"),
+        (true, 8192, "adjust_zero_pages"),
+        (false, 8192, "build_outline"),
+        (false, 8192, "get_toc"),
+    ] {
+        // the per-stage limits need children with > 60,000 levels (1-2 s each): thorough tier only
+        if which != "all" && !run.thorough {
+            continue;
+        }
+        probes.push(probe_config(&run, zero, kib, which));
+    }
+    run.set("depth_probe", json!(probes));
     run.exhaustive(true);
     run.finish();
 }
